@@ -153,6 +153,14 @@ def curves_of(content):
     return []
 
 
+def print_header_only(content, layout):
+    """The version and the other sections without any `~A` section (a header-only file is a valid input of the reader)."""
+    out = [print_sect({'kind': 'H', 'typ': 'V', 'lines': content['v']}, layout['v'])]
+    for i, s in enumerate(content['sects']):
+        out.append(print_sect(s, _at(layout['sects'], i, SECTLAY0)))
+    return ''.join(out)
+
+
 def print_las(content, layout):
     out = [print_sect({'kind': 'H', 'typ': 'V', 'lines': content['v']}, layout['v'])]
     for i, s in enumerate(content['sects']):
